@@ -19,6 +19,7 @@ CLAIM = (
     "for exactly the Optional list properties the class specifies itself, yields from the property under `is not None`."
     " SKIPS: the loops of the functions in scope have no more `continue`, `break` or in-loop `return` statements than the reference "
     "read on the unchanged tree (baselines/skips.json): a new skip means elements that were handled are no longer handled."
+    " Guard exactness: descend_once / descend / accept* / transform* are generated under the ConcreteClass test alone, and `yield from X.descend()` under the recursion flag and descendability alone (any further condition excludes classes from dispatch or from the transitive closure)."
 )
 NOTE = (
     "Not decided: the traversal results on instance graphs (execution of the generated code). `X or default` accessors do not exist in the "
